@@ -303,6 +303,27 @@ impl Model {
         true
     }
 
+    /// Does an env directory of the layer hold a symbolic link that leads nowhere (e.g. its
+    /// target was removed by a write that then failed half-way)?
+    fn env_has_dangling_link(&self, i: usize) -> bool {
+        let l = self.ldir(i);
+        let mut dirs = vec![join(&l, b"env"), join(&l, b"env.build"), join(&l, b"env.launch")];
+        let launch = join(&l, b"env.launch");
+        for c in self.snap.children(&launch) {
+            let full = join(&launch, &c);
+            if self.snap.resolves_to_dir(&full, &self.root_abs) {
+                dirs.push(full);
+            }
+        }
+        dirs.iter().any(|d| {
+            self.snap.children(d).iter().any(|c| {
+                let full = join(d, c);
+                matches!(self.snap.get(&full), Some(Node::Symlink { .. }))
+                    && self.snap.resolve(&full, &self.root_abs).is_none_or(|r| !self.snap.contains(&r))
+            })
+        })
+    }
+
     fn env_of(&self, i: usize) -> EnvModel {
         EnvModel::read_layer(&self.snap, &self.ldir(i), &self.root_abs)
     }
@@ -655,6 +676,13 @@ impl Model {
                 let m = EnvModel::from_spec(env);
                 self.set_env_dirs(*layer, &m);
                 Expectation::simple(ExpResult::UnitOk)
+            }
+            Op::ReadEnv { layer, .. } if self.env_has_dangling_link(*layer) => {
+                // an entry that cannot be opened is an error for every reader (lifecycle too)
+                Expectation::simple(ExpResult::ErrOther)
+            }
+            Op::EnvCycle { layer, .. } if self.env_has_dangling_link(*layer) => {
+                Expectation::simple(ExpResult::ErrOther)
             }
             Op::ReadEnv { layer, .. } => {
                 Expectation::simple(ExpResult::EnvRead(Box::new(self.env_of(*layer))))
